@@ -14,7 +14,6 @@ import (
 	"sync"
 	"time"
 
-	"github.com/k0kubun/pp"
 	"github.com/pkg/errors"
 	"github.com/xelaj/errs"
 
@@ -276,7 +275,9 @@ func (m *MTProto) startReadingResponses(ctx context.Context) {
 						m.warnError(errors.Wrap(err, "can't reconnect"))
 					}
 				default:
-					check(err)
+					// problems with single message (can't decode it, unexpected answer, etc.) must not kill
+					// whole client, so we just warning about it and waiting for next message
+					m.warnError(err)
 				}
 			}
 		}
@@ -377,8 +378,6 @@ messageTypeSwitching:
 		// игнорим, пришло и пришло, че бубнить то
 
 	case *objects.BadMsgNotification:
-		pp.Println(message)
-		panic(message) // for debug, looks like this message is important
 		return BadMsgErrorFromNative(message)
 
 	case *objects.RpcResult:
